@@ -87,6 +87,106 @@ impl ToJSON for VNode {
     }
 }
 
+/// four optional properties: every subset of them present (an absent first, middle or last one)
+#[derive(Clone, Debug, PartialEq)]
+pub struct VOpts {
+    pub a: Option<String>,
+    pub b: Option<i128>,
+    pub c: Option<bool>,
+    pub d: Option<String>,
+}
+impl New for VOpts {
+    fn new() -> Self {
+        VOpts { a: None, b: None, c: None, d: None }
+    }
+}
+impl FromJSON for VOpts {
+    fn parse_json_to_properties(&self, json_string: String) -> Result<Vec<(JSONProperty, JSONValue)>, String> {
+        JSON::parse_as_properties(json_string)
+    }
+    fn set_properties(&mut self, properties: Vec<(JSONProperty, JSONValue)>) -> Result<(), String> {
+        for (property, value) in properties {
+            match property.property_name.as_str() {
+                "a" => self.a = value.string,
+                "b" => self.b = value.i128,
+                "c" => self.c = value.bool,
+                "d" => self.d = value.string,
+                _ => {}
+            }
+        }
+        Ok(())
+    }
+    fn parse(&mut self, json_string: String) -> Result<(), String> {
+        let p = self.parse_json_to_properties(json_string)?;
+        self.set_properties(p)
+    }
+}
+impl ToJSON for VOpts {
+    fn list_properties() -> Vec<JSONProperty> {
+        vec![
+            JSONProperty { property_name: "a".into(), property_type: JSON_TYPE.string.into() },
+            JSONProperty { property_name: "b".into(), property_type: JSON_TYPE.integer.into() },
+            JSONProperty { property_name: "c".into(), property_type: JSON_TYPE.boolean.into() },
+            JSONProperty { property_name: "d".into(), property_type: JSON_TYPE.string.into() },
+        ]
+    }
+    fn get_property(&self, property_name: String) -> JSONValue {
+        let mut v = JSONValue::new();
+        match property_name.as_str() {
+            "a" => v.string = self.a.clone(),
+            "b" => v.i128 = self.b,
+            "c" => v.bool = self.c,
+            "d" => v.string = self.d.clone(),
+            _ => {}
+        }
+        v
+    }
+    fn to_json_string(&self) -> String {
+        let mut data = vec![];
+        for p in VOpts::list_properties() {
+            let v = self.get_property(p.property_name.to_string());
+            data.push((p, v));
+        }
+        JSON::to_json_string(data)
+    }
+}
+
+pub fn check_opts(mask: usize) -> (String, Vec<(String, String)>) {
+    let o = VOpts {
+        a: if mask & 1 != 0 { Some("first".into()) } else { None },
+        b: if mask & 2 != 0 { Some(-7) } else { None },
+        c: if mask & 4 != 0 { Some(true) } else { None },
+        d: if mask & 8 != 0 { Some("last".into()) } else { None },
+    };
+    let text = match crate::engine::guard(|| o.to_json_string()) {
+        Ok(t) => t,
+        Err(p) => return ("panic".into(), vec![(format!("C19:panic:to_json:{}", crate::engine::panic_class(&p.message)), p.message)]),
+    };
+    let mut fails = Vec::new();
+    let which = ["a", "b", "c", "d"].iter().enumerate().filter(|(i, _)| mask & (1 << i) == 0).map(|(_, n)| *n).collect::<Vec<_>>().join("+");
+    let absent = if which.is_empty() { "none".to_string() } else { which };
+    match serde_json::from_str::<Value>(&text) {
+        Err(e) => fails.push((format!("C19:not-valid-json:optional-properties-absent:{}", if mask & 1 == 0 { "first" } else if mask & 8 == 0 { "last" } else { "middle" }), format!("{} for {:?} (absent: {})", e, text, absent))),
+        Ok(v) => {
+            let n = v.as_object().map(|m| m.len()).unwrap_or(usize::MAX);
+            if n != (mask as u32).count_ones() as usize {
+                fails.push(("C19:json-means-something-else:optional-properties".to_string(), format!("{} members for {:?}", n, text)));
+            }
+        }
+    }
+    let mut back = VOpts::new();
+    match crate::engine::guard(|| back.parse(text.clone())) {
+        Err(p) => fails.push((format!("C19:panic:parse:{}", crate::engine::panic_class(&p.message)), p.message)),
+        Ok(Err(e)) => fails.push(("C19:own-text-rejected:optional-properties".to_string(), format!("{} for {:?} (absent: {})", e, text, absent))),
+        Ok(Ok(())) => {
+            if back != o {
+                fails.push(("C19:roundtrip-differs:optional-properties".to_string(), format!("{:?} vs {:?}", back, o)));
+            }
+        }
+    }
+    (if fails.is_empty() { "opts:equal".into() } else { "opts:differs".into() }, fails)
+}
+
 #[derive(Clone, Debug)]
 pub struct VObj {
     pub s: String,
@@ -626,6 +726,18 @@ pub fn run(ctx: &mut Ctx) {
             }
         }
     }
+    for mask in 0..16usize {
+        let j = json!({"kind":"optional-properties","mask":mask});
+        if !ctx.begin(j.to_string().as_bytes()) {
+            continue;
+        }
+        ctx.nontrivial();
+        let (class, fails) = check_opts(mask);
+        ctx.outcome(&class);
+        for (sig, detail) in fails {
+            ctx.fail(&sig, || j.clone(), detail);
+        }
+    }
     for kind in TYPED {
         for k in 0..9 {
             let j = json!({"kind":"typed","type":kind,"shape":k});
@@ -643,7 +755,9 @@ pub fn run(ctx: &mut Ctx) {
 }
 
 pub fn replay(v: &Value) -> Vec<Failure> {
-    let fails = if v["kind"].as_str() == Some("typed") {
+    let fails = if v["kind"].as_str() == Some("optional-properties") {
+        check_opts(v["mask"].as_u64().unwrap_or(0) as usize).1
+    } else if v["kind"].as_str() == Some("typed") {
         check_typed(v["type"].as_str().unwrap_or(""), v["shape"].as_u64().unwrap_or(0) as usize).1
     } else {
         let devs: Vec<(String, usize)> = v["devs"].as_array().map(|a| a.iter().map(|d| (d[0].as_str().unwrap_or("").to_string(), d[1].as_u64().unwrap_or(0) as usize)).collect()).unwrap_or_default();
